@@ -18,6 +18,8 @@ SKELETONS = {
     "UnderBin": (3, "H.Bin(2, 0.0, 2.0, qx, H.Branch(ps[0], ps[1], ps[2]))"),
     "FractionSlots": (2, "_fraction(ps)"),
     "BinFlows": (3, "_binflows(ps)"),
+    "NanflowsOfSiblings": (3, "_nanflows(ps)"),
+    "NanflowAndCut": (2, "_nanflow_and_cut(ps)"),
 }
 SHARED = {
     "Sum": "H.Sum(qx)",
@@ -31,6 +33,16 @@ def _fraction(ps):
     t = H.Fraction(qb, H.Count())
     t.numerator, t.denominator = ps[0], ps[1]
     return t
+
+def _nanflows(ps):
+    a = H.SparselyBin(1.0, qx); b = H.CentrallyBin([0.0, 2.0], qx); c = H.Stack([0.0], qx)
+    a.nanflow, b.nanflow, c.nanflow = ps[0], ps[1], ps[2]
+    return H.Branch(a, b, c)
+
+def _nanflow_and_cut(ps):
+    a = H.IrregularlyBin([0.0], qx)
+    a.nanflow = ps[0]
+    return H.Branch(H.Select(qb, a), H.Select(qb, ps[1]))
 
 def _binflows(ps):
     t = H.Bin(2, 0.0, 2.0, qx)
